@@ -13,6 +13,21 @@ def contents(rng, kind, n, m):
     if kind == 'disjoint': return [rng.randrange(50) for _ in range(n)], [100 + rng.randrange(50) for _ in range(m)]
     if kind == 'shifted': t = [rng.randrange(1000) for _ in range(n)]; k = min(7, n); s = (t[k:] + t[:k])[:m]; return t, s + [0] * max(0, m - len(s))
     if kind == 'short': return [rng.randrange(20) for _ in range(n)], [rng.randrange(20) for _ in range(min(m, 5))]
+    if kind == 'prefix':      # a long common prefix, then unrelated tails
+        k = (min(n, m) * 3) // 4; c = [rng.randrange(1000) for _ in range(k)]
+        return c + [rng.randrange(20) for _ in range(n - k)], c + [100 + rng.randrange(20) for _ in range(m - k)]
+    if kind == 'suffix':
+        k = (min(n, m) * 3) // 4; c = [rng.randrange(1000) for _ in range(k)]
+        return [rng.randrange(20) for _ in range(n - k)] + c, [100 + rng.randrange(20) for _ in range(m - k)] + c
+    if kind == 'near':        # a handful of edits
+        t = [rng.randrange(1000) for _ in range(n)]; s = gen_ord.mutate(rng, t, 8, 1000)
+        return t, s
+    if kind in ('block_front', 'block_back'):   # one list is the other plus ONE foreign block in front / at the back (a whole block deleted or inserted)
+        short = [rng.randrange(1000) for _ in range(min(n, m))]; blk = [5000 + rng.randrange(50) for _ in range(abs(n - m))]
+        long_ = blk + short if kind == 'block_front' else short + blk
+        return (long_, short) if n >= m else (short, long_)
+    if kind == 'periodic':    # many equally good alignments (ties in the split row)
+        return [i % 3 for i in range(n)], [(i + 1) % 3 for i in range(m)]
     raise ValueError(kind)
 
 def main():
@@ -40,10 +55,12 @@ def main():
     small = []
     for i in range(40 if a.tier == 'quick' else 200):
         n, m = rng.choice([0, 1, 5, 9, 17, 40, 80, 120]), rng.choice([0, 1, 5, 9, 17, 40, 80, 120])
-        small.append(mk(f"s{i}", rng.choice(['random', 'equal', 'disjoint', 'shifted', 'short']), n, m))
+        small.append(mk(f"s{i}", rng.choice(['random', 'equal', 'disjoint', 'shifted', 'short', 'prefix', 'suffix', 'near', 'periodic']), n, m))
     # (2) oracle on the implementation alone: large inputs
-    sizes = [(300, 300), (1000, 1000), (3000, 2500), (2000, 10)] if a.tier == 'quick' else [(1000, 1000), (5000, 5000), (20000, 20000), (30000, 50), (50, 30000), (12000, 9000)]
-    big = [mk(f"b{i}_{kind}", kind, n, m) for i, (n, m) in enumerate(sizes) for kind in (['random', 'shifted'] if a.tier == 'quick' else ['random', 'equal', 'disjoint', 'shifted', 'short'])]
+    sizes = [(300, 300), (1000, 1000), (3000, 2500), (2000, 10), (10, 2000), (400, 2500), (2500, 400)] if a.tier == 'quick' else [(1000, 1000), (5000, 5000), (20000, 20000), (30000, 50), (50, 30000), (12000, 9000), (2000, 12000), (12000, 2000)]
+    big = [mk(f"b{i}_{kind}", kind, n, m) for i, (n, m) in enumerate(sizes) for kind in (['random', 'shifted', 'prefix', 'suffix', 'near', 'periodic'] if a.tier == 'quick' else ['random', 'equal', 'disjoint', 'shifted', 'short', 'prefix', 'suffix', 'near', 'periodic'])]
+    blocks = [(4000, 6000), (6000, 4000), (1000, 1500), (3000, 3400)] if a.tier == 'quick' else [(4000, 6000), (6000, 4000), (1000, 1500), (3000, 3400), (16000, 24000), (24000, 16000), (20000, 21000)]
+    big += [mk(f"k{i}_{kind}", kind, n, m) for i, (n, m) in enumerate(blocks) for kind in ('block_front', 'block_back')]
     f1 = os.path.join(WORK, f'cases_{PROP}.txt'); open(f1, 'w').write('\n'.join(c for c, _, _ in small + big) + '\n')
     f2 = os.path.join(WORK, f'cases_{PROP}_small.txt'); open(f2, 'w').write('\n'.join(c for c, _, _ in small) + '\n')
     impl, model = {}, {}
@@ -77,7 +94,7 @@ def main():
     res.coverage['measurements'] = table[-12:]
     res.coverage['input_distribution'] = dist
     res.coverage['traces_validated_against_impl'] = len([1 for c, _, _ in small if c.split()[0] in model and c.split()[0] in impl])
-    res.rule = ("inputs of the kinds random / equal / disjoint / shifted / one side short; (1) for sizes the Peano-nat model can evaluate the measured peak of live heap bytes during hirschberg() "
+    res.rule = ("inputs of the kinds random / equal / disjoint / shifted / one side short / long common prefix / long common suffix / a few edits / periodic (ties) / one whole foreign block in front or at the back of either list, with either side the longer one; (1) for sizes the Peano-nat model can evaluate the measured peak of live heap bytes during hirschberg() "
                 "(counting global allocator in the harness) must not exceed the model's cost semantics hir_mem (peak + retained cells, 32 B per cell) plus the entry point's two pointer vectors; "
                 "(2) for large sizes the measured peak must not exceed the proven linear bound K*(n+m+1) cells. non-trivial = every measured (n, m, kind)")
     res.samples = [small[0][0][:200], {'large': table[-1] if table else None}]
